@@ -1212,7 +1212,14 @@ def run_law_history(case, rec):
                 changed = True
         except AssertionError:
             raise Inconclusive("parameter value rejected by the law")
-        fresh = _law_problem(gm.build(case["recipe"]), gmod.make_elastic(spec), dim)
+        try:
+            fresh_law = gmod.make_elastic(spec)
+        except AssertionError:
+            # the laws check the admissibility of their parameters when the stiffness is read (not in the setters): a generated
+            # change that leaves the admissible set (e.g. E1 halved twice with v13 kept: |s13| >= sqrt(s11 s33)) is rejected there,
+            # for a new law as for the modified one - outside the quantifier (thorough tier, seed 5: DESIGN 6.3)
+            raise Inconclusive("the final parameters are outside the admissible set of the law")
+        fresh = _law_problem(gm.build(case["recipe"]), fresh_law, dim)
         Kf = orc.dense(fresh.Get_K_C_M_F()[0])
         uf = np.asarray(fresh.Solve(), float)
         if not np.all(np.isfinite(uf)):
